@@ -45,3 +45,6 @@ pub assume_specification<T: ?Sized + serde::Serialize> [serde_json::to_string] (
 pub assume_specification<'a, T: ?Sized + AsRef<std::ffi::OsStr>> [<std::path::PathBuf as From<&'a T>>::from] (s: &T) -> (r: std::path::PathBuf);
 pub assume_specification<P> [std::path::Path::join] (_0: &std::path::Path, _1: P) -> (r: std::path::PathBuf)
     where P: std::convert::AsRef<std::path::Path>;
+pub assume_specification<P> [std::process::Command::current_dir] (_0: &mut std::process::Command, _1: P) -> &mut std::process::Command
+    where P: std::convert::AsRef<std::path::Path>;
+pub assume_specification [std::path::Path::to_path_buf] (_0: &std::path::Path) -> std::path::PathBuf;
